@@ -310,7 +310,33 @@ pub fn generate(rng: &mut Rng, allow_tasks: bool) -> Workload {
     let mut error_line = None;
     let mut error_file = None;
     let mut extra_files: Vec<(String, String)> = vec![];
-    match rng.below(9) {
+    match rng.below(12) {
+        9..=11 => {
+            // the failing operation's value is not used at all (an expression statement that is
+            // not the last one): it must still stop the program
+            let (stmt, prefix, what) = match rng.below(4) {
+                0 => ("da / db", "error: division by zero", "discarded-div0"),
+                1 => ("da % db", "error: division by zero", "discarded-mod0"),
+                2 => ("dbig + da", "error: integer overflow/underflow", "discarded-overflow"),
+                _ => ("dbig * da", "error: integer overflow/underflow", "discarded-mul-overflow"),
+            };
+            let a = rng.range(2, 90);
+            if rng.chance(1, 2) {
+                let line = src.matches('\n').count() as u32 + 4;
+                src.push_str(&format!(
+                    "let da = {a}\nlet db = da - da\nlet dbig = 9223372036854775807\n{stmt}\nobs(9999, \"not reached\")\n7\n"
+                ));
+                error_line = Some(line);
+            } else {
+                let line = src.matches('\n').count() as u32 + 4;
+                src.push_str(&format!(
+                    "fn inner(da: int) -> int {{\n    let db = da - da\n    let dbig = 9223372036854775807\n    {stmt}\n    da + 1\n}}\nlet r = inner({a})\nobs(9999, \"not reached \" .. r)\n7\n"
+                ));
+                error_line = Some(line);
+            }
+            error_prefix = Some(prefix.to_string());
+            descr.push(format!("error:{what}"));
+        }
         0 => {
             let (a, b) = (rng.range(0, 1000) as i64, rng.range(0, 1000) as i64);
             src.push_str(&format!("let fa = {a}\nlet fb = {b}\nfa * 3 + fb\n"));
